@@ -12,6 +12,7 @@ Families (each case is regenerated from its own seed, so every case replays):
   custom-value        values with zero quantities, empty policies, boundary coins / quantities, negative quantities
   custom-value-mal    damaged value encodings: both sides must agree on ok / DeserializeException / other exception
   custom-output       {legacy, map} x {no datum, hash, inline, hash+inline} x {no script, native, Plutus v1-v3} x flag
+                      (constructor arguments; the constructed object — `__post_init__` — is compared with `normOutput`)
   custom-output-mal   damaged output encodings
   custom-body         bodies with random optional fields, list / OrderedSet(tagged | untagged) set-valued fields, and
                       each set-valued field transcoded to the other wire form
@@ -30,7 +31,7 @@ from ref import cbor_ref as R
 from vlib import typegen as T
 from vlib import values as V
 
-KF_FLAG = "KF-C01-post-alonzo-flag"
+KF_BOTH = "KF-C01-both-datums"
 
 COINS = [0, 1, 23, 24, 255, 256, 65535, 65536, 2**32 - 1, 2**32, 2**63 - 1, 2**63, 2**64 - 1, 2**64, 2**64 + 1, 1_500_000]
 QTYS = [0, 1, 23, 24, 2**32, 2**63, 2**64 - 1, 2**64, 3 * 2**70, -1, -24, -25, -(2**63), -(2**64), -(2**64) - 1]
@@ -101,12 +102,11 @@ def check_value(ctx, case):
         nx = type(x)(x.coin, copy.deepcopy(x.multi_asset).normalize())
         if not (y == nx):
             ctx.violation("Value: decode(encode(v)) != normalised v", desc, V.dump_value(nx), V.dump_value(y))
-        eq = (y == x)
-        if normal and not eq:
-            ctx.violation("Value: decode(encode(v)) != v for a normalised v", desc, j, V.dump_value(y))
+        if not (y == x) or not (x == y):
+            # C01.value_roundtrip_pyeq: `==` compares contents, so it holds for every value, stored zeros / empty policies included
+            ctx.violation("Value: decode(encode(v)) != v", desc, j, V.dump_value(y))
         if not normal:
-            # `Value.__eq__` does not normalise: theorem value_roundtrip_pyeq_iff says `==` fails exactly here
-            ctx.count("custom-value:unnormalised:decoded" + ("==" if eq else "!=") + "original(not judged)")
+            ctx.count("custom-value:storing-zeros-or-empty-policies:decoded==original(judged)")
         try:
             b2 = y.to_cbor()
         except Exception:
@@ -272,12 +272,12 @@ def output_json(o):
             "script": script_json(o.script), "pa": bool(o.post_alonzo)}
 
 
-def gen_output(rng, g):
+def gen_output(rng, g, allow_both=True):
     import pycardano as pc
     from pycardano import TransactionOutput
     addr = T.g_address(g, 0)
     amount = V.load_value(gen_value_json(rng, output=True))
-    dmode = "both" if rng.random() < 0.08 else rng.choice(["none", "hash", "inline"])
+    dmode = "both" if (allow_both and rng.random() < 0.08) else rng.choice(["none", "hash", "inline"])
     smode = rng.choice(["none", "none", "none", "native", "v1", "v2", "v3"])
     flag = rng.random() < 0.5
     dh = pc.hash.DatumHash(T.rb(rng, 32)) if dmode in ("hash", "both") else None
@@ -293,18 +293,14 @@ def gen_output(rng, g):
     return o, dmode, smode, flag
 
 
-def fields_equal_but_flag(o, y):
-    return (y.address == o.address and y.amount == o.amount and y.datum_hash == o.datum_hash and y.datum == o.datum
-            and y.script == o.script)
-
-
 def check_output(ctx, case):
     from pycardano import TransactionOutput
     rng = random.Random(case["seed"])
     g = T.Gen(rng, {})
     o, dmode, smode, flag = gen_output(rng, g)
-    oj = output_json(o)
-    desc = {**case, "output": oj}
+    oj = output_json(o)                              # the constructed object
+    args = {**oj, "pa": bool(flag)}                  # the constructor arguments (the flag as it was passed)
+    desc = {**case, "output": oj, "flag_argument": bool(flag)}
     try:
         b = o.to_cbor()
         refused = None
@@ -313,8 +309,15 @@ def check_output(ctx, case):
     have = ctx.have_driver()
     m = None
     if have:
-        m = ctx.driver().ok({"op": "custom.output.enc", "o": oj})
+        m = ctx.driver().ok({"op": "custom.output.enc", "o": args})
         ctx.traces += 1
+    # `TransactionOutput.__post_init__`: the flag is set whenever an inline datum or a script is present (model: normOutput)
+    exp_flag = bool(flag) or o.datum is not None or o.script is not None
+    if bool(o.post_alonzo) != exp_flag:
+        ctx.violation("TransactionOutput: constructed with an inline datum or a script but post_alonzo is not set (the output "
+                      "is written in the map form and decodes to an unequal object)", desc, exp_flag, bool(o.post_alonzo))
+    if flag != bool(o.post_alonzo):
+        ctx.count("custom-output:flag-set-by-constructor")
     if b is None:
         # an output the library refuses to serialize (negative amounts): the model must refuse as well
         ctx.count("custom-output:refused:" + refused)
@@ -331,6 +334,8 @@ def check_output(ctx, case):
             return
         if m["hex"] != b.hex():
             ctx.diff("custom.output.enc", desc, m["hex"], b.hex())
+        if m["constructed"] != oj:
+            ctx.diff("custom.output.constructor", desc, m["constructed"], oj)
         ctx.count("custom-output:" + ("in_theorem_scope" if m["inscope"] else "outside_theorem_scope"))
         if m["form"] != form:
             ctx.diff("custom.output.enc.form", desc, m["form"], form)
@@ -351,22 +356,21 @@ def check_output(ctx, case):
         if b2 != b:
             ctx.violation("TransactionOutput: re-encoding the decoded output gives different bytes", desc, b.hex(),
                           b2.hex() if b2 else None)
-        normal = V.is_normal_ma(oj["amount"]["ma"])
-        if dmode == "both":
-            # datum hash AND inline datum: not expressible as a ledger datum_option; TransactionOutput does not refuse it,
-            # the hash is written and the inline datum is lost (theorem output_both_datums_drops_inline): not judged
-            ctx.count("custom-output:both-datums(hash wins, inline datum lost; not judged)")
-            ctx.skipped += 1
-        elif not normal:
-            ctx.count("custom-output:unnormalised-amount(== does not normalise; not judged)")
-        elif not (y == o):
+        if not V.is_normal_ma(oj["amount"]["ma"]):
+            ctx.count("custom-output:amount-storing-zeros-or-empty-policies(judged: == is component-wise)")
+        if not (y == o):
             fid = None
-            if flag and (o.datum is not None or o.script is not None) and not y.post_alonzo and fields_equal_but_flag(o, y):
-                fid = KF_FLAG                    # exactly the condition of theorem output_flag_exception_iff
-            ctx.violation("TransactionOutput: decode(encode(o)) != o", desc, oj, output_json(y), finding=fid)
-        elif flag and (o.datum is not None or o.script is not None):
-            ctx.violation("TransactionOutput: flag exception expected by output_flag_exception_iff did not occur "
-                          "(model and code disagree on the decoded post_alonzo)", desc, False, y.post_alonzo)
+            if (o.datum_hash is not None and o.datum is not None and y.datum is None and y.address == o.address
+                    and y.amount == o.amount and y.datum_hash == o.datum_hash and y.script == o.script
+                    and y.post_alonzo == o.post_alonzo):
+                # exactly the condition of theorem output_both_datums_drops_inline, and the dropped datum is the ONLY difference
+                fid = KF_BOTH
+            ctx.violation("TransactionOutput with datum_hash AND datum: the inline datum is not on the wire, "
+                          "decode(encode(x)) != x" if fid else "TransactionOutput: decode(encode(o)) != o",
+                          desc, oj, output_json(y), finding=fid)
+        elif dmode == "both":
+            ctx.violation("TransactionOutput with datum_hash AND datum round-trips: the recorded finding KF-C01-both-datums "
+                          "no longer reproduces (model and code disagree)", desc, "datum dropped", output_json(y))
     # ---- correspondence with the model
     if have and err is None:
         k, md = ctx.driver().call({"op": "custom.output.dec", "hex": b.hex()})
@@ -538,7 +542,7 @@ def gen_body(rng, g):
         return out
 
     kw = {"inputs": as_set_field(rng, inputs(rng.choice([0, 1, 2, 3])), False),
-          "outputs": [gen_output(rng, g)[0] for _ in range(rng.choice([0, 1, 2]))],
+          "outputs": [gen_output(rng, g, allow_both=False)[0] for _ in range(rng.choice([0, 1, 2]))],
           "fee": rng.choice([0, 170000, 2**32, rng.randint(0, 10**7)])}
     opt = {
         "ttl": lambda: rng.choice([0, 1, 2**32, 10**8]),
@@ -552,7 +556,7 @@ def gen_body(rng, g):
         "collateral": lambda: as_set_field(rng, inputs(rng.choice([1, 2])), True),
         "required_signers": lambda: as_set_field(rng, [VerificationKeyHash(T.rb(rng, 28)) for _ in range(rng.choice([1, 2, 3]))], True),
         "network_id": lambda: rng.choice(list(pc.Network)),
-        "collateral_return": lambda: gen_output(rng, g)[0],
+        "collateral_return": lambda: gen_output(rng, g, allow_both=False)[0],
         "total_collateral": lambda: rng.choice([0, 5_000_000]),
         "reference_inputs": lambda: as_set_field(rng, inputs(rng.choice([1, 2, 3])), True),
         "voting_procedures": lambda: g.obj("VotingProcedures", 2),
@@ -619,7 +623,6 @@ def compare_decoded_body(ctx, op, desc, b, y, err):
 
 def check_body(ctx, case):
     from pycardano import TransactionBody
-    from checks.c01 import equal_up_to_post_alonzo
     rng = random.Random(case["seed"])
     g = T.Gen(rng, {})
     try:
@@ -661,25 +664,12 @@ def check_body(ctx, case):
         if b2 != b:
             ctx.violation("TransactionBody: re-encoding the decoded body gives different bytes", desc, b.hex(),
                           b2.hex() if b2 else None)
-        unnormal = any(not V.is_normal_ma(V.dump_value(o.amount)["ma"]) for o in
-                       list(x.outputs) + ([x.collateral_return] if x.collateral_return is not None else []))
-        unnormal = unnormal or (x.mint is not None and not V.is_normal_ma(V.dump_ma(x.mint)))
-        both = any(o.datum is not None and o.datum_hash is not None for o in
-                   list(x.outputs) + ([x.collateral_return] if x.collateral_return is not None else []))
         try:
             eq = (y == x)
         except Exception:
             eq = False
-        if both or unnormal:
-            ctx.count("custom-body:contains-unnormalised-value-or-both-datums(== not judged)")
-        elif not eq:
-            fid = None
-            try:
-                if equal_up_to_post_alonzo(x, y):
-                    fid = KF_FLAG
-            except Exception:
-                pass
-            ctx.violation("TransactionBody: decode(encode(x)) != x", desc, repr(x)[:400], repr(y)[:400], finding=fid)
+        if not eq:
+            ctx.violation("TransactionBody: decode(encode(x)) != x", desc, repr(x)[:400], repr(y)[:400])
     if ctx.have_driver():
         d = ctx.driver()
         v = T.to_val(x)
@@ -765,7 +755,8 @@ def dispatch_custom(ctx, case):
 def run_custom(ctx):
     ctx.assumptions.append("custom codecs (Value / TransactionOutput / TransactionBody set fields): address, inline datum and "
                            "native script are leaves of the output model (their own codecs are C15 / C18 / the generic "
-                           "generator); `==` on values does not normalise, so equality is judged on normalised amounts only")
+                           "generator); an output with datum_hash AND inline datum is the recorded finding KF-C01-both-datums "
+                           "(bodies are generated without such outputs)")
     n = ctx.budget(600, 15000)
     for i in range(n):
         dispatch_custom(ctx, {"kind": "custom-value", "seed": f"{ctx.seed}/cv{i}"})
